@@ -49,7 +49,7 @@ Definition is_pend (r : role) : bool :=
   match r_kind r with RPend => true | _ => false end.
 
 (* the task launched for role number [i] of environment [e] *)
-Definition tid_of (e i : N) : N := e * 64 + i.
+Definition tid_of (e i : N) : tid := (e, i).
 
 Fixpoint index_from {A} (i : N) (l : list A) : list (N * A) :=
   match l with
@@ -96,7 +96,7 @@ Definition task_iroles (x : env) : list (N * role) :=
   filter (fun ir => is_task_role (snd ir)) (iroles (e_roles x)).
 
 (* env.Workflow().GetTasks(): the tasks the task roles point to *)
-Definition bound_tids (x : env) : list N :=
+Definition bound_tids (x : env) : list tid :=
   if e_bound x then map (fun ir => tid_of (e_id x) (fst ir)) (task_iroles x) else [].
 
 Definition pend_roles (x : env) : N := Nlen (filter is_pend (e_roles x)).
@@ -139,35 +139,36 @@ Definition merged_at (x : env) (w : Z) : list (N * role) :=
   end.
 Definition merged (x : env) : list (list (N * role)) := map (merged_at x) (all_weights x).
 
-Definition group_calls (e : N) (g : list (N * role)) : list N :=
+Definition group_calls (e : N) (g : list (N * role)) : list tid :=
   map (fun ir => tid_of e (fst ir)) (filter (fun ir => is_hook_call (snd ir)) g).
-Definition group_tasks (e : N) (g : list (N * role)) : list N :=
+Definition group_tasks (e : N) (g : list (N * role)) : list tid :=
   map (fun ir => tid_of e (fst ir)) (filter (fun ir => is_hook_task (snd ir)) g).
 
-Definition active_in (r : roster) (id : N) : bool :=
+Definition active_in (r : roster) (id : tid) : bool :=
   match find_task id r with Some t => t_active t | None => false end.
 
 (* ---------- TeardownEnvironment ---------- *)
 Record tdres := mkTd {
   td_st : st;
   td_ok : bool;
-  td_calls : list N;     (* DESTROY call hooks invoked, in order *)
-  td_trigs : list N      (* DESTROY hook tasks triggered, in order *)
+  td_calls : list tid;         (* DESTROY call hooks invoked, in order *)
+  td_trigs : list tid;         (* DESTROY hook tasks triggered, in order *)
+  td_hookr : option roster     (* the roster at the moment the DESTROY hooks ran, if they did *)
 }.
 
 Definition teardown (force : bool) (e : N) (s : st) : tdres :=
   match find_env e (s_envs s) with
-  | None => mkTd s false [] []
+  | None => mkTd s false [] [] None
   | Some x =>
-      if N.eqb (e_state x) ES_DONE then mkTd s false [] []
+      if N.eqb (e_state x) ES_DONE then mkTd s false [] [] None
       else if negb force && negb (N.eqb (e_state x) ES_STANDBY || N.eqb (e_state x) ES_DEPLOYED)
-      then mkTd s false [] []
+      then mkTd s false [] [] None
       else
         let groups := merged x in
         let hooktids := flat_map (group_tasks e) groups in
-        let torelease := filter (fun id => negb (memN id hooktids)) (bound_tids x) in
+        let torelease := filter (fun id => negb (mem_tid id hooktids)) (bound_tids x) in
         let '(r1, n1) := release e torelease (s_roster s) in
-        if negb (N.eqb n1 0) then mkTd (mkSt (s_envs s) r1 (s_snaps s)) false [] []
+        if negb (N.eqb n1 0) then mkTd (mkSt (s_envs s) r1 (s_snaps s)) false [] [] None
         else
           let calls := flat_map (group_calls e) groups in
           (* task hooks of each weight, only those whose role is still ACTIVE *)
@@ -177,19 +178,19 @@ Definition teardown (force : bool) (e : N) (s : st) : tdres :=
           let lastmsg := match groups with [] => torelease | _ => last trig_groups [] end in
           let envs1 := upd_env e (set_pend 0) (s_envs s) in       (* cancelCallsPendingAwait *)
           let '(r2, n2) := release e lastmsg r1 in
-          if negb (N.eqb n2 0) then mkTd (mkSt envs1 r2 (s_snaps s)) false calls trigs
-          else mkTd (mkSt (remove_env e (s_envs s)) r2 (s_snaps s)) true calls trigs
+          if negb (N.eqb n2 0) then mkTd (mkSt envs1 r2 (s_snaps s)) false calls trigs (Some r1)
+          else mkTd (mkSt (remove_env e (s_envs s)) r2 (s_snaps s)) true calls trigs (Some r1)
   end.
 
 (* ---------- outputs of one step ---------- *)
 Record out := mkOut {
   o_rc : N;              (* 0 = the request returned success, 1 = it returned an error *)
-  o_kills : list N;      (* KILL calls *)
-  o_cmds : list N;       (* targets of transition commands *)
-  o_calls : list N;
-  o_trigs : list N;
+  o_kills : list tid;    (* KILL calls *)
+  o_cmds : list tid;     (* targets of transition commands *)
+  o_calls : list tid;
+  o_trigs : list tid;
   o_pend : N;            (* destroy only: live pending calls left in the environment object *)
-  o_launch : list N      (* tasks launched (ACCEPT) *)
+  o_launch : list tid    (* tasks launched (ACCEPT) *)
 }.
 Definition out_rc (rc : N) : out := mkOut rc [] [] [] [] 0 [].
 
@@ -203,7 +204,7 @@ Definition ev_src_dst (ev : N) : option (N * N * N) :=   (* environment src, dst
 
 (* the task that refuses when the oracle says the transition fails: the first critical plain
    task of the environment that is still active *)
-Definition fail_target (x : env) (r : roster) : option N :=
+Definition fail_target (x : env) (r : roster) : option tid :=
   match filter (fun ir => match r_kind (snd ir) with RPlain => r_crit (snd ir) | _ => false end &&
                           active_in r (tid_of (e_id x) (fst ir)))
                (iroles (e_roles x)) with
@@ -212,7 +213,7 @@ Definition fail_target (x : env) (r : roster) : option N :=
   end.
 
 (* workflow.GetActiveTasks + transitionTasks: result roster, targets, success *)
-Definition transition (x : env) (dst : N) (fail : bool) (r : roster) : roster * list N * bool :=
+Definition transition (x : env) (dst : N) (fail : bool) (r : roster) : roster * list tid * bool :=
   let e := e_id x in
   let targets := active_owned_in e (bound_tids x) r in
   let refuse := if fail then fail_target x r else None in
@@ -244,7 +245,7 @@ Definition snap (e : N) (missing : bool) (s : st) : st * out :=
     (mkSt (s_envs s) r' ((e, active_dets (s_envs s)) :: remove_snap e (s_snaps s)), mkOut 0 k [] [] [] 0 []).
 
 (* failure tail of CreateEnvironment: GO_ERROR, forced teardown, KillTasks(envTasks) *)
-Definition create_tail (x : env) (s : st) (cmds : list N) (launched : list N) : st * out :=
+Definition create_tail (x : env) (s : st) (cmds : list tid) (launched : list tid) : st * out :=
   let t := teardown true (e_id x) s in
   let '(r', k) := kill_tasks (bound_tids x) (s_roster (td_st t)) in
   (with_roster (td_st t) r', mkOut 1 k cmds (td_calls t) (td_trigs t) 0 launched).
@@ -327,7 +328,7 @@ Definition dtc (force keep : bool) (x : env) (s : st) : st * out :=
   let t1 := teardown force e s in
   let t := if td_ok t1 || force then t1
            else let t2 := teardown true e (td_st t1) in
-                mkTd (td_st t2) (td_ok t2) (td_calls t1 ++ td_calls t2) (td_trigs t1 ++ td_trigs t2) in
+                mkTd (td_st t2) (td_ok t2) (td_calls t1 ++ td_calls t2) (td_trigs t1 ++ td_trigs t2) (td_hookr t2) in
   let left := match find_env e (s_envs (td_st t)) with Some x' => e_pend x' | None => 0 end in
   if negb (td_ok t) then (td_st t, mkOut 1 [] [] (td_calls t) (td_trigs t) left [])
   else if keep then (td_st t, mkOut 0 [] [] (td_calls t) (td_trigs t) left [])
@@ -382,8 +383,8 @@ Inductive op :=
 | OControl (e : N) (ev : N) (fail : bool)
 | ODestroy (e : N) (force allow keep tfail : bool)
 | OCleanup
-| OKill (ids : list N)
-| ODies (t : N).
+| OKill (ids : list tid)
+| ODies (t : tid).
 
 Definition step (s : st) (o : op) : st * out :=
   match o with
@@ -420,13 +421,13 @@ Record obs := mkObs {
   ob_envs : list envobs;      (* GetEnvironments, by id *)
   ob_roster : list task;      (* GetTasks / roster, by id *)
   ob_adets : list N;          (* GetActiveDetectors *)
-  ob_kills : list N;
-  ob_cmds : list N;
-  ob_calls : list N;
-  ob_trigs : list N;
+  ob_kills : list tid;
+  ob_cmds : list tid;
+  ob_calls : list tid;
+  ob_trigs : list tid;
   ob_early : N;               (* DESTROY hooks started while a non-hook task was still owned *)
   ob_pend : N;                (* after a destroy: calls of that environment still pending and not cancelled *)
-  ob_launch : list N          (* tasks launched during the request *)
+  ob_launch : list tid        (* tasks launched during the request *)
 }.
 
 Fixpoint ins_eo (x : envobs) (l : list envobs) : list envobs :=
@@ -441,8 +442,8 @@ Definition observe (s : st) (o : out) : obs :=
            (map (fun x => mkEO (e_id x) (e_state x) (dedupN (sortN (e_dets x))) (e_pend x)) (s_envs s)))
         (sort_roster (s_roster s))
         (dedupN (sortN (active_dets (s_envs s))))
-        (sortN (o_kills o)) (sortN (o_cmds o)) (o_calls o) (sortN (o_trigs o)) 0 (o_pend o)
-        (sortN (o_launch o)).
+        (sort_tids (o_kills o)) (sort_tids (o_cmds o)) (o_calls o) (sort_tids (o_trigs o)) 0 (o_pend o)
+        (sort_tids (o_launch o)).
 
 Fixpoint run_obs (s : st) (ops : list op) : list obs :=
   match ops with
@@ -451,16 +452,17 @@ Fixpoint run_obs (s : st) (ops : list op) : list obs :=
   end.
 
 Definition listN_eqb := list_eqb N.eqb.
+Definition tids_eqb := list_eqb tid_eqb.
 Definition eo_eqb (a b : envobs) : bool :=
   N.eqb (eo_id a) (eo_id b) && N.eqb (eo_state a) (eo_state b) &&
   listN_eqb (eo_dets a) (eo_dets b) && N.eqb (eo_pend a) (eo_pend b).
 Definition obs_eqb (a b : obs) : bool :=
   N.eqb (ob_rc a) (ob_rc b) && list_eqb eo_eqb (ob_envs a) (ob_envs b) &&
   list_eqb task_eqb (ob_roster a) (ob_roster b) && listN_eqb (ob_adets a) (ob_adets b) &&
-  listN_eqb (ob_kills a) (ob_kills b) && listN_eqb (ob_cmds a) (ob_cmds b) &&
-  listN_eqb (ob_calls a) (ob_calls b) && listN_eqb (ob_trigs a) (ob_trigs b) &&
+  tids_eqb (ob_kills a) (ob_kills b) && tids_eqb (ob_cmds a) (ob_cmds b) &&
+  tids_eqb (ob_calls a) (ob_calls b) && tids_eqb (ob_trigs a) (ob_trigs b) &&
   N.eqb (ob_early a) (ob_early b) && N.eqb (ob_pend a) (ob_pend b) &&
-  listN_eqb (ob_launch a) (ob_launch b).
+  tids_eqb (ob_launch a) (ob_launch b).
 
 (* ---------- cases written by the harness ---------- *)
 Record hcase := mkCase { h_ops : list op; h_obs : list obs }.
